@@ -33,6 +33,7 @@ type c20Case struct {
 	NConns  int       `json:"nconns"`
 	Gate    string    `json:"gate"`            // "", "pre", "post", "start": deliveries park on a gate
 	Early   bool      `json:"early,omitempty"` // deliveries refuse without reading the message
+	TLS     bool      `json:"tls,omitempty"`   // STARTTLS is available ("starttls-begin": STARTTLS sent, 220 received, no handshake yet)
 	Steps   []c20Step `json:"steps"`
 }
 
@@ -51,7 +52,11 @@ func c20Run(c c20Case) Verdict {
 	case "rcpt":
 		script.GateCalls = []string{"Rcpt"}
 	}
-	r := harness.NewRig(harness.Config{LMTP: c.LMTP}, script)
+	rcfg := harness.Config{LMTP: c.LMTP}
+	if c.TLS {
+		rcfg.TLS = "starttls"
+	}
+	r := harness.NewRig(rcfg, script)
 	wires := make([]*harness.Wire, c.NConns)
 	for i := range wires {
 		wires[i], _ = r.Dial()
@@ -85,6 +90,8 @@ func c20Run(c c20Case) Verdict {
 				w.Send([]byte("DATA\r\n"))
 				w.Send([]byte("line one of the body\r\nline two of the body\r\n"))
 				w.Send([]byte("line three\r\n.\r\nNOOP\r\n"))
+			case "starttls-begin":
+				w.Send([]byte("STARTTLS\r\n"))
 			case "rset":
 				w.Send([]byte("RSET\r\n"))
 			case "quit":
@@ -156,6 +163,20 @@ func c20Run(c c20Case) Verdict {
 				select {
 				case <-ch:
 				case <-time.After(30 * time.Millisecond):
+					// Close that does not return although no callback is in
+					// progress: is it waiting for a lock that somebody holds
+					// while waiting for a silent peer?
+					r.Hub.Lock()
+					quietBackend := r.B.InflightLocked() == 0 && !r.B.AtGateLocked()
+					r.Hub.Unlock()
+					if ch == closeDone && quietBackend {
+						if stack := harness.StuckOnMutex("go-smtp.(*Server).Close"); stack != "" {
+							for _, w := range wires {
+								w.Abort()
+							}
+							return failf("close-stuck", "Server.Close does not return although no backend callback is in progress: it waits for a lock whose holder waits for the peer:\n%s", trimTo(stack, 1500))
+						}
+					}
 				}
 			}
 		case "cancel":
@@ -281,10 +302,16 @@ func c20Gen(t *rapid.T) c20Case {
 	c := c20Case{LMTP: rapid.Bool().Draw(t, "lmtp"), PerRcpt: rapid.Bool().Draw(t, "perrcpt"), NConns: rapid.IntRange(1, 3).Draw(t, "nconns"),
 		Gate: rapid.SampledFrom([]string{"", "pre", "post", "post", "start", "newsession", "mail", "rcpt"}).Draw(t, "gate")}
 	c.Early = rapid.IntRange(0, 3).Draw(t, "early") == 0
+	c.TLS = rapid.IntRange(0, 3).Draw(t, "tls") == 0
 	// per-connection programs
 	progs := make([][]string, c.NConns)
 	for i := range progs {
 		p := []string{"greet"}
+		if c.TLS && c.Gate != "newsession" && rapid.Bool().Draw(t, "handshake_pending") {
+			// the connection is left waiting for a ClientHello
+			progs[i] = []string{"greet", "starttls-begin", rapid.SampledFrom([]string{"eof", "abort", "starttls-begin"}).Draw(t, "end")}
+			continue
+		}
 		if c.Gate == "newsession" {
 			p = append(p, "release")
 		}
@@ -323,6 +350,9 @@ func c20Gen(t *rapid.T) c20Case {
 	for n := 0; n <= total; n++ {
 		if n == globalAt && global != "none" {
 			c.Steps = append(c.Steps, c20Step{Conn: -1, Op: strings.Split(global, "+")[0]})
+			if c.TLS {
+				c.Steps = append(c.Steps, c20Step{Conn: -1, Op: "settle"})
+			}
 			if global == "shutdown+cancel" {
 				// the cancel comes some steps later
 				defer func(at int) {}(n)
@@ -571,7 +601,7 @@ func TestC20(t *testing.T) {
 		return
 	}
 	// schedules: drawn with rapid's generators (deterministic per seed), one subtest each
-	n := pickTier(300, 2000)
+	n := pickTier(800, 4000)
 	gen := rapid.Custom(c20Gen)
 	for i := 0; i < n; i++ {
 		c := gen.Example(seedBase*1000003 + shard*100003 + i)
